@@ -14,6 +14,7 @@ use serde_json::json;
 use std::collections::BTreeMap;
 
 pub const F_GREEDY: &str = "C10-cbor-type-keyed-member-claims-depend-on-entry-order";
+pub const F_DUP: &str = "C10-cbor-duplicate-key-first-pair-claimed";
 
 fn perms<T: Clone>(v: &[T]) -> Vec<Vec<T>> {
   if v.len() <= 1 {
@@ -92,8 +93,29 @@ fn members() -> Vec<Entry> {
     kv(Occ::One, arrow(name("tstr")), name("int")),
     kv(Occ::Opt, arrow(name("tstr")), name("tstr")),
     kv(Occ::Star, arrow(name("int")), name("any")),
+    kv(Occ::Range(None, Some(1)), arrow(name("tstr")), name("int")),
+    kv(Occ::Range(Some(1), Some(2)), arrow(name("tstr")), name("tstr")),
+    kv(Occ::One, arrow(name("tstr")), name("any")),
     Entry { occ: Occ::One, kind: EK::Ref("gk".into(), vec![]) },
     Entry { occ: Occ::One, kind: EK::Ref("go".into(), vec![]) },
+  ]
+}
+
+/// sub-alphabet for the two-alternative family (<= 2 members per alternative)
+fn alt_members() -> Vec<Entry> {
+  let kv = |occ: Occ, k: Key, t: T2| Entry { occ, kind: EK::Val(Some(k), ty1(t)) };
+  let bare = |s: &str| Key::Bare(s.into());
+  let arrow = |t: T2| Key::Arrow(t1(t), false);
+  vec![
+    kv(Occ::One, arrow(name("tstr")), name("any")),
+    kv(Occ::One, arrow(name("tstr")), name("int")),
+    kv(Occ::One, arrow(name("tstr")), name("tstr")),
+    kv(Occ::Opt, arrow(name("tstr")), name("int")),
+    kv(Occ::Star, arrow(name("tstr")), name("int")),
+    kv(Occ::Range(None, Some(1)), arrow(name("tstr")), name("int")),
+    kv(Occ::One, arrow(name("uint")), name("tstr")),
+    kv(Occ::One, bare("a"), name("int")),
+    kv(Occ::One, bare("b"), name("tstr")),
   ]
 }
 
@@ -155,10 +177,44 @@ fn map_docs(tier: Tier) -> Vec<RV> {
       }
     }
   }
+  // duplicate and equivalent keys (CBOR only): every physical pair must be accounted for
+  for d in dup_docs() {
+    out.push(d);
+  }
   // nested: a map inside an array and inside a map value
   out.push(RV::Array(vec![RV::Map(vec![(t("a"), i(1)), (t("b"), t("x"))])]));
   out.push(RV::Map(vec![(t("a"), RV::Map(vec![(t("a"), i(1)), (t("b"), t("x"))])), (t("b"), t("x"))]));
   out
+}
+
+pub fn dup_docs() -> Vec<RV> {
+  vec![
+    RV::Map(vec![(t("a"), i(1)), (t("a"), i(1))]),
+    RV::Map(vec![(t("a"), i(1)), (t("a"), t("x"))]),
+    RV::Map(vec![(t("a"), i(1)), (t("b"), t("x")), (t("a"), i(1))]),
+    RV::Map(vec![(t("b"), t("x")), (t("b"), t("x"))]),
+    RV::Map(vec![(i(1), i(1)), (i(1), i(1))]),
+    RV::Map(vec![(i(1), i(1)), (i(1), t("x"))]),
+    RV::Map(vec![(i(1), i(1)), (RV::Float(1.0), i(1))]),
+    RV::Map(vec![(t("a"), i(1)), (t("c"), i(1)), (t("c"), i(1))]),
+  ]
+}
+
+/// does some map of the document hold the same key twice?
+fn has_dup_key(v: &RV) -> bool {
+  match v {
+    RV::Map(es) => {
+      (0..es.len()).any(|i| (0..i).any(|j| es[i].0 == es[j].0)) || es.iter().any(|(_, x)| has_dup_key(x))
+    }
+    RV::Array(xs) => xs.iter().any(has_dup_key),
+    _ => false,
+  }
+}
+
+/// every member has exactly one literal key and occurrence none/'?' (so it can account for
+/// at most one physical pair), and the keys are pairwise distinct
+fn single_key_members(g: &[Vec<Entry>]) -> bool {
+  g.iter().all(|alt| alt.iter().all(|e| matches!(e.occ, Occ::One | Occ::Opt) && lit_key(e).is_some()) && disjoint(alt))
 }
 
 fn is_json_doc(v: &RV) -> bool {
@@ -172,6 +228,8 @@ struct Acc {
   states: u64,
   succ: u64,
   nontrivial: u64,
+  dup_states: u64,
+  rec: Vec<(String, u64)>,
   obs: BTreeMap<String, u64>,
   samples: Vec<serde_json::Value>,
 }
@@ -204,6 +262,18 @@ fn part_a(text: &str, g: &[Vec<Entry>], docs: &[RV], a: &mut Acc) {
       _ => {}
     }
     *a.obs.entry(format!("cbor {}", o0.short().split('(').next().unwrap_or(""))).or_insert(0) += 1;
+    if has_dup_key(&all[lo]) && single_key_members(g) {
+      a.dup_states += 1;
+      if *o0 == Obs::Ok {
+        a.v.push(Viol {
+          kind: "cbor-duplicate-key-collapsed".into(),
+          case: json!({"schema": text, "doc": hex(&crate::cborref::preferred(&all[lo])), "doc_diag": crate::cborref::rv_to_diag(&all[lo])}),
+          observed: "Ok".into(),
+          expected: "rejected: every member can account for at most one pair and its keys are distinct, so one of the duplicate pairs is unaccounted for".into(),
+          finding: None,
+        });
+      }
+    }
     for k in 1..n {
       if obs[lo + k] != *o0 {
         a.v.push(Viol {
@@ -212,7 +282,7 @@ fn part_a(text: &str, g: &[Vec<Entry>], docs: &[RV], a: &mut Acc) {
                        "doc_diag": crate::cborref::rv_to_diag(&all[lo]), "permuted_diag": crate::cborref::rv_to_diag(&all[lo + k])}),
           observed: format!("{} vs permuted {}", o0.short(), obs[lo + k].short()),
           expected: "same verdict".into(),
-          finding: classify_a(g, &all[lo]),
+          finding: attribute(g, text, &all[lo], &mut a.rec),
         });
         break;
       }
@@ -236,6 +306,59 @@ fn part_a(text: &str, g: &[Vec<Entry>], docs: &[RV], a: &mut Acc) {
   if any_ok && any_rej {
     a.nontrivial += docs.len() as u64;
   }
+}
+
+/// key of a state for the recorded-state list of the known finding
+pub fn state_key(schema: &str, d: &RV) -> u64 {
+  // FNV-1a over "schema \0 canonical (key-sorted) document"
+  let mut canon = d.clone();
+  sort_maps(&mut canon);
+  let mut h: u64 = 0xcbf29ce484222325;
+  for b in schema.bytes().chain([0u8]).chain(crate::cborref::rv_to_diag(&canon).bytes()) {
+    h ^= b as u64;
+    h = h.wrapping_mul(0x100000001b3);
+  }
+  h
+}
+fn sort_maps(v: &mut RV) {
+  match v {
+    RV::Map(es) => {
+      es.iter_mut().for_each(|(_, x)| sort_maps(x));
+      es.sort_by(|a, b| format!("{:?}", a).cmp(&format!("{:?}", b)));
+    }
+    RV::Array(xs) => xs.iter_mut().for_each(sort_maps),
+    _ => {}
+  }
+}
+/// The states (schema, document up to entry order) on which the recorded finding F_GREEDY was
+/// observed when it was recorded (committed file, never written by a check run). A violating
+/// state is attributed to the finding only if it matches the structural pattern AND is on this
+/// list, so an order dependence on any other input is reported.
+pub fn recorded(id: &str) -> &'static std::collections::HashSet<u64> {
+  static R: std::sync::OnceLock<BTreeMap<String, std::collections::HashSet<u64>>> = std::sync::OnceLock::new();
+  static EMPTY: std::sync::OnceLock<std::collections::HashSet<u64>> = std::sync::OnceLock::new();
+  let m = R.get_or_init(|| {
+    let mut m = BTreeMap::new();
+    for id in [F_GREEDY, F_DUP] {
+      let p = format!("{}/known/{}.states", VERIF, id);
+      let set = std::fs::read_to_string(p).unwrap_or_default().lines().filter_map(|l| u64::from_str_radix(l.trim(), 16).ok()).collect();
+      m.insert(id.to_string(), set);
+    }
+    m
+  });
+  m.get(id).unwrap_or_else(|| EMPTY.get_or_init(Default::default))
+}
+
+/// structural candidate + membership in the recorded state list (VERIF_RECORD: collect the
+/// candidate's key instead, for writing the list by hand)
+fn attribute(g: &[Vec<Entry>], text: &str, d: &RV, rec: &mut Vec<(String, u64)>) -> Option<String> {
+  let cand = classify_a(g, d)?;
+  let key = state_key(text, d);
+  if std::env::var("VERIF_RECORD").is_ok() {
+    rec.push((cand.clone(), key));
+    return Some(cand);
+  }
+  recorded(&cand).contains(&key).then_some(cand)
 }
 
 /// Known finding (CBOR): a member keyed by a *type* with occurrence none or `?` claims the
@@ -265,9 +388,14 @@ fn classify_a(g: &[Vec<Entry>], d: &RV) -> Option<String> {
   }
   let mut ms = vec![];
   maps(d, &mut ms);
+  if has_dup_key(d) {
+    // a literal-key member takes the first physical pair with its key even when only a later
+    // duplicate satisfies it (second recorded finding); needs a duplicated key in the document
+    return Some(F_DUP.into());
+  }
   for alt in g {
     for e in alt {
-      if let (Occ::One | Occ::Opt, EK::Val(Some(Key::Arrow(k, _)), _)) = (&e.occ, &e.kind) {
+      if let (Occ::One | Occ::Opt | Occ::Range(_, Some(_)), EK::Val(Some(Key::Arrow(k, _)), _)) = (&e.occ, &e.kind) {
         if let (None, T2::Name(n, _)) = (&k.op, &k.t2) {
           if ms.iter().any(|es| es.iter().filter(|(key, _)| in_dom(n, key)).count() >= 2) {
             return Some(F_GREEDY.into());
@@ -296,6 +424,21 @@ pub fn run(tier: Tier) -> i32 {
         for c in &ms {
           fam.push((vec![vec![a.clone(), b.clone(), c.clone()]], false));
         }
+      }
+    }
+  }
+  let am = alt_members();
+  let mut alts: Vec<Vec<Entry>> = vec![];
+  for a in &am {
+    alts.push(vec![a.clone()]);
+    for b in &am {
+      alts.push(vec![a.clone(), b.clone()]);
+    }
+  }
+  for x in &alts {
+    for y in &alts {
+      if x.len() + y.len() >= 3 {
+        fam.push((vec![x.clone(), y.clone()], false));
       }
     }
   }
@@ -343,13 +486,18 @@ pub fn run(tier: Tier) -> i32 {
     }
   });
   let mut obs: BTreeMap<String, u64> = BTreeMap::new();
+  let mut rec: BTreeMap<String, std::collections::BTreeSet<u64>> = BTreeMap::new();
   for a in accs {
+    for (f, k) in &a.rec {
+      rec.entry(f.clone()).or_default().insert(*k);
+    }
     run.absorb(a.v);
     run.states += a.states;
     run.transitions += a.succ;
     run.traces += a.states + a.succ;
     run.nontrivial += a.nontrivial;
     run.add("schemas", a.schemas);
+    run.add("duplicate_key_states_judged", a.dup_states);
     for (k, v) in a.obs {
       *obs.entry(k).or_insert(0) += v;
     }
@@ -357,22 +505,33 @@ pub fn run(tier: Tier) -> i32 {
       run.sample(s);
     }
   }
+  if let Ok(dir) = std::env::var("VERIF_RECORD") {
+    // manual operation (never part of a registered command): write the candidate state lists
+    for (f, ks) in &rec {
+      let body: String = ks.iter().map(|k| format!("{:016x}\n", k)).collect();
+      let _ = std::fs::create_dir_all(&dir);
+      let _ = std::fs::write(format!("{dir}/{f}.states"), body);
+      eprintln!("recorded {} states for {f}", ks.len());
+    }
+  }
   run.evaluations = run.states + run.transitions;
   run.set("distinct_observations", json!(obs));
   run.set("documents", json!(docs.len()));
   run.rule = format!(
-    "state = (map schema, map document). Schemas: every map with 1..3 members (one alternative) and every two-alternative map over a \
-     {}-member alphabet (bareword/text/int literal keys, type keys tstr/uint/int with occurrences none ? * +, group references). Documents: \
-     every map of 2..3 entries over keys a,b,c,1,2 x values, plus nested maps ({} documents). transition = one permutation of a document's map \
+    "state = (map schema, map document). Schemas: every map with 1..3 members (one alternative) and every two-alternative map (one member each) over a \
+     {}-member alphabet (bareword/text/int literal keys, type keys tstr/uint/int with occurrences none ? * + *1 1*2, group references), plus every \
+     two-alternative map with up to two members per alternative over a 9-member sub-alphabet. Documents: \
+     every map of 2..3 entries over keys a,b,c,1,2 x values, plus 8 documents with duplicate / equivalent (1 vs 1.0) keys and nested maps ({} documents). transition = one permutation of a document's map \
      entries (all n! enumerated; CBOR value order, and JSON text order for JSON-model documents) or one permutation of the schema's members when \
-     their literal keys are pairwise distinct (both validators, all documents). Oracle: the successor's verdict equals the state's. \
+     their literal keys are pairwise distinct (both validators, all documents). Oracle: the successor's verdict equals the state's; and a document with a duplicated key is rejected by every schema whose members each \
+     name one distinct literal key with occurrence none/? (no pair may be collapsed). \
      non-trivial = states of schemas that both accept and reject some document.",
     ms.len(),
     docs.len()
   );
   run.assumptions = vec![
     "serde_json is built without preserve_order, so JSON text order can only matter through the parser; it is still exercised".into(),
-    "duplicate-key accounting (last sentence of C10) is not covered by this check".into(),
+    "duplicate-key accounting is judged only where no model is needed (all members single-keyed, distinct, at most once)".into(),
   ];
   run.finish()
 }
